@@ -4,8 +4,8 @@ P="$1"; ID="$2"; TIER="${3:-quick}"
 cd /repo || exit 2
 git diff --quiet || { echo "/repo not clean"; exit 2; }
 git apply "$P" || { echo "patch does not apply"; exit 2; }
-mkdir -p /tmp/seedreplay
+mkdir -p /tmp/seedreplay; ls /verif/replay/$ID 2>/dev/null > /tmp/seedreplay/before.$$
 ( cd /verif && VERIF_SEED="${VERIF_SEED:-1}" /venv/bin/python run.py "$ID" --tier "$TIER" 2>&1 | grep -v "^  sig" | cut -c1-400 | tail -12 ); 
 git -C /repo checkout -- . 
-# replay files written while a seeded change was applied are not kept in place
-if [ -d /verif/replay/$ID ]; then cd /verif && git status --porcelain replay/$ID | grep '^??' | awk '{print $2}' | while read f; do mv "$f" /tmp/seedreplay/ 2>/dev/null; done; fi
+# replay files written while a seeded change was applied are not kept
+for f in $(ls /verif/replay/$ID 2>/dev/null); do grep -qx "$f" /tmp/seedreplay/before.$$ || mv "/verif/replay/$ID/$f" /tmp/seedreplay/; done; rm -f /tmp/seedreplay/before.$$
